@@ -19,7 +19,16 @@ RULE = ("cases = corpus + every sequence of length <=3 (thorough: <=4) over the 
         "checkpoint under crash analysis + N random histories of length <=10 over 3 keys / 10 values (put, put_with_ttl, update, "
         "delete, clear, cleanup_expired, checkpoint, restore of a returned or of an unknown id, clock-advance by 0/1/2/5/11 ms; "
         "file backend 90% / memory 10%; max_checkpoints in {0,1,2,3,10}; default TTL off or 0/1/3/10 ms), one third closed by a "
-        "crash analysis. Every case runs on the real StateStore in a private directory with the injected clock (several "
+        "crash analysis; a quarter of the file-backend histories are driven through the twin StatefulOperator (kind O: its own "
+        "checkpoint / restore, every other call through state_mut() / state(), a third of the puts as process() events) + every "
+        "sequence of length <=3 over {put, process-put, delete, checkpoint, restore #0, restore #1} on a StatefulOperator + an "
+        "operator family (checkpoint, then edits the operator does not see - state_mut, clock expiry, restore of an older id - or "
+        "process(), then restore of the latest / an older id) + an interrupted-checkpoint family (history filled to max_checkpoints "
+        "-1 / exactly / +1, then op Z = a checkpoint that fails with a REAL I/O error - the path of its state.json is occupied by a "
+        "directory so File::create fails -, then every earlier checkpoint restored, then a further checkpoint or a crash analysis; "
+        "Z also replaces one random checkpoint in ten): after Z list_checkpoints and every earlier checkpoint's file must be what "
+        "they were (this observes the real code's own step order, which the reconstructed crash states cannot). "
+        "Every case runs on the real StateStore in a private directory with the injected clock (several "
         "checkpoints share one millisecond unless the clock is advanced) and on the Lean model; after every call get/keys/len, "
         "list_checkpoints and the parsed files under the backend path are diffed, and Spec.runOk is evaluated on the "
         "implementation's observations. Crash analysis = the directory states of the interrupted checkpoint in the code's step "
